@@ -214,7 +214,7 @@ def check(case):
         msk = g0[:, 2] > g0[:, 2].max() - 40
         d = np.abs(g0 - g1)[msk][:, cols]
         d = d[g0[msk][:, cols] > -60]
-        if d.size and d.max() > 0.01 + 20 * tol1:
+        if d.size and d.max() > 0.01 * tol1 / 5e-4:
             fails.append(('invariance:pattern:' + what, 'gain at rigidly moved directions differs by %.3g dB' % d.max()))
     # ---- (b) options vs coordinates (wires only)
     if all(o['type'] == 'wire' for o in case['objs']):
